@@ -922,10 +922,7 @@ impl Interpreter {
         // A new run replaces whatever an earlier run left behind
         self.discard_run_state();
         let result = self.eval_inner(source, module_path);
-        if result.is_err() {
-            self.discard_run_state();
-        }
-        result
+        result.map_err(|e| self.fail_run(e))
     }
 
     fn eval_inner(
@@ -1178,11 +1175,17 @@ impl Interpreter {
     #[inline]
     pub fn step(&mut self) -> Result<StepResult, JsError> {
         let result = self.step_inner();
-        if result.is_err() {
-            // The run ended with an uncaught error: nothing of it may survive into a later run
-            self.discard_run_state();
-        }
-        result
+        // The run ended with an uncaught error: nothing of it may survive into a later run
+        result.map_err(|e| self.fail_run(e))
+    }
+
+    /// End a run that failed: the error leaves the interpreter in host-readable form (a value
+    /// thrown while a dependency or internal source module was being loaded is still a raw
+    /// `ThrownValue` here) and every piece of per-run state is dropped.
+    fn fail_run(&mut self, error: JsError) -> JsError {
+        let error = self.materialize_thrown_error(error);
+        self.discard_run_state();
+        error
     }
 
     /// Forget every piece of per-run execution state: the active VM, the scopes, call-stack
@@ -1463,10 +1466,7 @@ impl Interpreter {
         // stopped stepping it)
         self.discard_run_state();
         let result = self.prepare_inner(source, module_path);
-        if result.is_err() {
-            self.discard_run_state();
-        }
-        result
+        result.map_err(|e| self.fail_run(e))
     }
 
     fn prepare_inner(
